@@ -111,7 +111,8 @@ def plan_and_run(prop, eng, tier, seed, runs, pool, extra=None):
         job = {'op': 'runs', 'prop': prop, 'seed': seed, 'range': [lo, hi], 'tier': tier}
         if extra:
             job.update(extra)
-        res = run_world(job, hs)
+        # wall-clock backstop per world (never a verdict): generous, larger groups get more
+        res = run_world(job, hs, timeout=max(1800, 12 * (hi - lo)) if tier == 'thorough' else 1800)
         res['group'] = gi
         res['hashseed'] = hs
         res['range'] = [lo, hi]
